@@ -204,3 +204,91 @@ def targets(tier='quick'):
         RC = chain_registry(M)
         T.append(Target('chain/indexing[M=%d]' % M, 'gradient._chain_rule', scen_chain(M), post_chain(M, RC), RC, PROP))
     return T
+
+
+# ---- history: derivatives handed to the chain rule depend on (dt, parameters) of THIS call only
+def hist_registry():
+    R = props_registry()
+    R.models.pop('system.ParameterizedSystem.halfstep_propagator_derivative')
+
+    @model
+    def m_argspec(ip, args, kw):
+        return Obj('ArgSpec', {'args': ['p%d' % i for i in range(ip.ghost['M'])]})
+
+    @model
+    def m_ident(ip, args, kw):
+        return args[0]
+
+    @model
+    def m_noop(ip, args, kw):
+        return None
+
+    @model
+    def m_check_gl(ip, args, kw):
+        return [], []
+
+    @model
+    def m_jacobian(ip, args, kw):
+        fun = args[0]
+
+        @model
+        def J(ip2, a2, k2):
+            # the numerical Jacobian of `fun` at x: a functional of fun, represented by the value
+            # expression of fun at x (captures everything fun closes over, e.g. the time step)
+            val = ip2.call(fun, [a2[0]], {})
+            return uf('Jacobian_of', val)
+        return J
+    R.lib_models['inspect.getfullargspec'] = m_argspec
+    R.lib_models['numpy.vectorize'] = m_ident
+    R.lib_models['numdifftools.Jacobian'] = m_jacobian
+    R.models['system._check_hamiltonian'] = m_noop
+    R.models['system._check_parameterized_gammas_lindblad_operators'] = m_check_gl
+    return R
+
+
+def scen_hist(M):
+    def scen(ip, repo):
+        ip.ghost['M'] = M
+        N = Int('N')
+        ip.assume(N >= 1)
+        return {'M': M, 'N': N, 'inputs': {'M': M}}
+    return scen
+
+
+def invoke_hist(ip, repo, fref, ctx):
+    M, N = ctx['M'], ctx['N']
+    H = user_callable('H_of_params', raises=False)
+
+    def build():
+        return ip.call(repo.resolve('system.ParameterizedSystem'), [H], {})
+    used, fresh_ = build(), build()
+    Par1 = z3.Function('Par_earlier', IntS, IntS, RealS)
+    p1 = Seq(2 * N, lambda r: [Par1(r, c) for c in range(M)], 'ndarray')
+    p2 = Seq(2 * N, lambda r: [Par(r, c) for c in range(M)], 'ndarray')
+    dt1, dt2 = Real('dt_earlier'), Real('dt')
+    s1, s2 = Int('step_earlier'), Int('step')
+    ip.add_pc(z3.And(s1 >= 0, s1 < N, s2 >= 0, s2 < N))
+    g = repo.resolve('system.ParameterizedSystem.get_propagator_derivatives')
+    ip.call(ip.call(g, [used, dt1, p1], {}), [s1], {})          # an earlier gradient evaluation on another time grid
+    a = ip.call(ip.call(g, [used, dt2, p2], {}), [s2], {})
+    b = ip.call(ip.call(g, [fresh_, dt2, p2], {}), [s2], {})
+    return a, b
+
+
+def post_hist(ip, ctx, out):
+    if not expect_no_other_exception(ip, out):
+        return
+    a, b = out.value
+    ip.prove('param/derivatives-independent-of-history', z3.And(veq(a[0], b[0]), veq(a[1], b[1])))
+
+
+_t1 = targets
+
+
+def targets(tier='quick'):
+    T = _t1(tier)
+    RH = hist_registry()
+    for M in (1, 2):
+        T.append(Target('param/history[M=%d]' % M, 'system.ParameterizedSystem.get_propagator_derivatives', scen_hist(M), post_hist, RH, PROP,
+                        invoke=invoke_hist, replay=lambda ob: {'func': 'gradient_two_time_grids', 'inputs': {}}))
+    return T
